@@ -73,6 +73,68 @@ def primary_owner(state, token_value):
     return ring[0][1]
 
 
+def dc_partition(state, local_dc):
+    """-> (local, remote, undecided) sets of endpoints of a mirrored state for a policy whose local datacenter is `local_dc`;
+    undecided = endpoints described by rows that disagree (either placement is acceptable)"""
+    local, remote, undecided = set(), set(), set()
+    for a, h in state.items():
+        if h.get('ambiguous'):
+            undecided.add(a)
+        elif h['dc'] == local_dc:
+            local.add(a)
+        else:
+            remote.add(a)
+    return local, remote, undecided
+
+
+def expected_distance(state, a, local_dc, remote_used):
+    """'LOCAL' | 'REMOTE' | 'IGNORED' for a datacenter-aware policy that uses every remote host (remote_used=True)
+    or none (False); None when the rows disagree about the host"""
+    if state[a].get('ambiguous'):
+        return None
+    if state[a]['dc'] == local_dc:
+        return 'LOCAL'
+    return 'REMOTE' if remote_used else 'IGNORED'
+
+
+def judge_plan(plan, state, local_dc, remote_used, first=None):
+    """A query plan (list of endpoints, in order) of a datacenter-aware policy judged against a mirrored state:
+    every host of the local datacenter exactly once, then (remote_used) every other host exactly once or (not
+    remote_used) nothing else; nothing that is not a known host; `first` (a local replica) leads when given.
+    -> [(clause, text)]"""
+    bad = []
+    local, remote, undecided = dc_partition(state, local_dc)
+    seen = set()
+    for a in plan:
+        if a in seen:
+            bad.append(('host-planned-twice', 'host %r appears %d times' % (a, plan.count(a))))
+        seen.add(a)
+    for a in sorted(seen - set(state), key=repr):
+        bad.append(('unknown-host-planned', '%r is not a known host' % (a,)))
+    if not remote_used:
+        for a in sorted(seen & remote, key=repr):
+            bad.append(('remote-host-planned-by-local-only-policy', '%r is in datacenter %r, the policy uses only %r'
+                        % (a, state[a]['dc'], local_dc)))
+    must = local | (remote | undecided if remote_used else set())
+    for a in sorted(must - seen, key=repr):
+        bad.append(('known-host-not-planned', '%r (datacenter %r) is missing' % (a, state[a]['dc'])))
+    pos = {}
+    for i, a in enumerate(plan):
+        pos.setdefault(a, i)
+    li = [pos[a] for a in local if a in pos]
+    ri = [pos[a] for a in remote if a in pos]
+    if li and ri and max(li) > min(ri):
+        bad.append(('remote-host-before-local-host', 'a host of another datacenter is planned before a host of %r' % (local_dc,)))
+    if first is not None and (not plan or plan[0] != first):
+        bad.append(('local-replica-not-first', 'the local replica %r does not lead' % (first,)))
+    seen_clauses, out = set(), []
+    for c, t in bad:
+        if c not in seen_clauses:
+            seen_clauses.add(c)
+            out.append((c, t))
+    return out
+
+
 def selftest():
     loc = {'data_center': 'dc1', 'rack': 'r1', 'host_id': 'h1', 'tokens': ['0']}
     rows = [
@@ -92,4 +154,16 @@ def selftest():
     rows2 = rows[:1] + [dict(rows[0], native_port=9043, host_id='h10')]
     assert sorted(mirror(('a', 9042), loc, rows2, True)) == [('a', 9042), ('b', 9042), ('b', 9043)]
     assert primary_owner(m, 5) == ('b', 9042) and primary_owner(m, 11) == ('a', 9042) and primary_owner(m, -3) == ('a', 9042)
+    st = {'a': {'dc': 'dc1'}, 'b': {'dc': 'dc1'}, 'c': {'dc': 'dc2'}, 'd': {'dc': 'dc2', 'ambiguous': True}}
+    assert dc_partition(st, 'dc1') == (set('ab'), set('c'), set('d'))
+    assert judge_plan(['b', 'a', 'd', 'c'], st, 'dc1', True, first='b') == []
+    assert judge_plan(['a', 'b'], st, 'dc1', False) == [] and judge_plan(['a', 'd', 'b'], st, 'dc1', False) == []
+    assert [c for c, _ in judge_plan(['a', 'b', 'c', 'c'], st, 'dc1', True)] == ['host-planned-twice', 'known-host-not-planned']
+    assert [c for c, _ in judge_plan(['a', 'b', 'c', 'd', 'e'], st, 'dc1', True)] == ['unknown-host-planned']
+    assert [c for c, _ in judge_plan(['a', 'c', 'b', 'd'], st, 'dc1', True)] == ['remote-host-before-local-host']
+    assert [c for c, _ in judge_plan(['a', 'b', 'c'], st, 'dc1', False)] == ['remote-host-planned-by-local-only-policy']
+    assert [c for c, _ in judge_plan(['a', 'c', 'd'], st, 'dc1', True)] == ['known-host-not-planned']
+    assert [c for c, _ in judge_plan(['a', 'b', 'c', 'd'], st, 'dc1', True, first='b')] == ['local-replica-not-first']
+    assert expected_distance(st, 'a', 'dc1', True) == 'LOCAL' and expected_distance(st, 'c', 'dc1', True) == 'REMOTE'
+    assert expected_distance(st, 'c', 'dc1', False) == 'IGNORED' and expected_distance(st, 'd', 'dc1', True) is None
     return True
